@@ -202,7 +202,10 @@ impl<'a> D<'a> {
                 &selector,
                 &change,
                 req,
+                #[cfg(not(feature = "transparent"))]
                 ConfirmationsPolicy::new_unchecked(trusted, untrusted),
+                #[cfg(feature = "transparent")]
+                ConfirmationsPolicy::new_unchecked(trusted, untrusted, false),
                 &SpendPolicy::default().with_locked_input_policy(policy),
                 lock.map(|(o, k)| LockRequest::new(owner(o), k)),
                 None,
